@@ -156,6 +156,24 @@ def rule_phase(ctx, tu, eff, R="C01.PHASE"):
         rr = [s for s in cxa.all_stores(comp.body) if s.base and s.base[1].startswith("rr")]
         ok = len(rr) == 1 and call_parts(rr[0].rhs) and call_parts(rr[0].rhs)[0] == "ReactionRate"
         ctx.check(ok, R, rr[0].node if rr else comp.node, comp.qual, "rr[r] = ReactionRate(i, r)", "rates of this cell", "")
+        # every reaction's rate is evaluated in every cell: the store stands under the loop bounds only (a zero-order reaction
+        # has a rate in an empty cell; a shortcut on the cell's content leaves it out)
+        if rr:
+            at = []
+
+            def on_rate(node, facts, at=at):
+                for s_ in cxa.stores_of_node(node):
+                    if s_.base and s_.base[1].startswith("rr"):
+                        at.append(set(facts))
+            cxa.canon_facts(comp.body, on_atom=on_rate)
+            import re as _re
+            extra = sorted(str(a) for fs in at for a, pol in fs if isinstance(a, str) and
+                           not _re.match(r"^(0 <= )?[A-Za-z_']+\d* (<|<=) (n_\w+|[A-Za-z_']+)$", a) and
+                           not _re.match(r"^0 <= \w+", a))
+            ctx.check(at and not extra, R, rr[0].node, comp.qual, "rates computed for every reaction of every cell",
+                      "unconditional inside the cell / reaction loops", "the reaction rates of a cell are skipped under `%s`: "
+                      "reactions whose rate does not vanish there (zero-order reactions in an empty cell) are left out of the "
+                      "derivative" % (extra[0] if extra else "?"))
     for b in ("SimulationAlgorithm3DBase", "SimulationAlgorithmGraphBase"):
         f = tu.fn(b + "::ReactionRate")
         ps = f.param_names()
